@@ -442,6 +442,10 @@ def run():
                              JOB_BUDGET, fbound))
     ctx = mp.get_context('fork')
     all_outcomes = {}
+    real_samples = [{'program': j[0], 'schedule_prefix': j[3],
+                     'meaning': 'index of the chosen thread among the enabled '
+                                'ones at each scheduling point (0 = default)'}
+                    for j in jobs[::max(1, len(jobs) // 6)]]
     rounds = 0
     with ctx.Pool(common.nproc()) as pool:
       while jobs:
@@ -486,8 +490,8 @@ def run():
     rep.coverage['distinct_nontrivial'] = sum(
         d['distinct_outcomes'] for d in per_prog.values())
     rep.coverage['exhaustive'] = not rep.coverage.get('capped', False)
-    rep.sample({'program': 'P3-ioport-wrapper',
-                'schedule': 'choice sequence, e.g. [0,0,0,0,0,0,1]'})
+    for smp in real_samples[:6]:
+        rep.sample(smp)
     rep.coverage['rule'] = (
         'programs: ' + ', '.join(progs) + f' ({size} send(s) per sender); for '
         'each, every schedule with at most the stated number of preemptions '
